@@ -1,0 +1,87 @@
+//go:build verif
+
+/*
+Copyright 2026 Codenotary Inc. All rights reserved.
+
+SPDX-License-Identifier: BUSL-1.1
+*/
+
+// Package verifhook exposes observation and perturbation points used by an
+// external runtime-verification harness. With the "verif" build tag off every
+// entry point is an empty function.
+package verifhook
+
+import "sync/atomic"
+
+const Enabled = true
+
+// Handler receives the hook calls. Implementations must be safe for
+// concurrent use and must not call back into the instrumented packages.
+type Handler interface {
+	// Point is a schedule-perturbation site (may yield, sleep or block).
+	Point(site string)
+	// Fault may return an error to be injected at the site.
+	Fault(site string) error
+	// FS observes one storage operation on a file (journal for crash analysis).
+	FS(op FSOp, path string, off int64, data []byte, path2 string)
+	// Note observes an internal fact the API boundary does not expose.
+	Note(site string, a, b uint64, h [32]byte)
+}
+
+type FSOp int
+
+const (
+	FSOpCreate FSOp = iota + 1
+	FSOpWrite
+	FSOpSync
+	FSOpSyncDir
+	FSOpRemove
+	FSOpRemoveAll
+	FSOpRename
+)
+
+type holder struct{ h Handler }
+
+var handler atomic.Pointer[holder]
+
+// SetHandler installs (or, with nil, removes) the process-wide handler.
+func SetHandler(h Handler) {
+	if h == nil {
+		handler.Store(nil)
+		return
+	}
+	handler.Store(&holder{h: h})
+}
+
+func Point(site string) {
+	if p := handler.Load(); p != nil {
+		p.h.Point(site)
+	}
+}
+
+func Fault(site string) error {
+	if p := handler.Load(); p != nil {
+		return p.h.Fault(site)
+	}
+	return nil
+}
+
+func Note(site string, a, b uint64, h [32]byte) {
+	if p := handler.Load(); p != nil {
+		p.h.Note(site, a, b, h)
+	}
+}
+
+func fs(op FSOp, path string, off int64, data []byte, path2 string) {
+	if p := handler.Load(); p != nil {
+		p.h.FS(op, path, off, data, path2)
+	}
+}
+
+func FSCreate(path string)                        { fs(FSOpCreate, path, 0, nil, "") }
+func FSWrite(path string, off int64, data []byte) { fs(FSOpWrite, path, off, data, "") }
+func FSSync(path string)                          { fs(FSOpSync, path, 0, nil, "") }
+func FSSyncDir(path string)                       { fs(FSOpSyncDir, path, 0, nil, "") }
+func FSRemove(path string)                        { fs(FSOpRemove, path, 0, nil, "") }
+func FSRemoveAll(path string)                     { fs(FSOpRemoveAll, path, 0, nil, "") }
+func FSRename(from, to string)                    { fs(FSOpRename, from, 0, nil, to) }
